@@ -572,4 +572,50 @@ theorem chain_registered_iff_lt_three (f : R) (hf : 0 < f) :
 example : sizematch 16 16 (some 32) (some 32) = ⟨32, 32, 32, 16, true⟩ ∧ resizeSize 32 1 2 = 16 := by
   decide
 
+/-! ## reading a Dataset repeatedly: every per-read theorem is independent of the read history
+
+Model fact that carries it: `getItem` returns the cache it was given (`getItem_cache_unchanged`) —
+`__getitem__` rebinds keys of a shallow copy and never writes a cached tensor — so a read is a
+function of (cached entry, this read's draw) only. -/
+
+/-- a read never changes the cache -/
+theorem getItem_cache_unchanged (cache : List (St R)) (idx : Nat) (ops : List (Op R)) :
+    (getItem Nat.cast cache idx ops).2 = cache := rfl
+
+/-- **history independence**: the `k`-th sample of any read history is what a single read of that
+index on the freshly filled cache gives, and the cache after the history is the initial one. -/
+theorem read_history_independent (cache : List (St R)) (reads : List (Nat × List (Op R))) :
+    (readAll Nat.cast cache reads).1 = reads.map (fun r => (getItem Nat.cast cache r.1 r.2).1) ∧
+    (readAll Nat.cast cache reads).2 = cache := by
+  induction reads with
+  | nil => exact ⟨rfl, rfl⟩
+  | cons r rest ih =>
+    obtain ⟨i, ops⟩ := r
+    simp only [readAll, getItem_cache_unchanged, List.map_cons]
+    exact ⟨by rw [ih.1], ih.2⟩
+
+/-- a full chain is "fill the cache, then read": the stateless `run` the driver executes per read
+is `getItem` on the cache entry `run pre` -/
+theorem chain_split (h w : Nat) (pre post : List (Op R)) :
+    (getItem Nat.cast [run Nat.cast h w pre] 0 post).1 = some (run Nat.cast h w (pre ++ post)) := by
+  simp [getItem, run, List.foldl_append]
+
+/-- **registration on every read** (centred-instance class, augmentation off): whatever was read
+before — the same index any number of times, other indices in between — the `k`-th read re-crops
+about the cached centroid, returns it at the crop centre, and leaves the registration offset of
+the cached entry unchanged on both axes. -/
+theorem reread_registered (cache : List (St R)) (reads : List (Nat × List (Op R))) (k i : Nat)
+    (bh bw st : Nat) (hk : reads[k]? = some (i, [.recrop bh bw, .pad st]))
+    (s : St R) (hs : cache[i]? = some s) (c : R × R) (hc : s.centroid = some c) (p : R × R) :
+    ∃ out, (readAll Nat.cast cache reads).1[k]? = some (some out) ∧
+      out.centroid = some (((bw : R) - 1) / 2, ((bh : R) - 1) / 2) ∧
+      (out.content.apply p).1 - (out.kp.apply p).1 = (s.content.apply p).1 - (s.kp.apply p).1 ∧
+      (out.content.apply p).2 - (out.kp.apply p).2 = (s.content.apply p).2 - (s.kp.apply p).2 := by
+  refine ⟨step Nat.cast (step Nat.cast s (.recrop bh bw)) (.pad st), ?_, ?_, ?_, ?_⟩
+  · rw [(read_history_independent cache reads).1, List.getElem?_map, hk]
+    simp [getItem, hs]
+  · exact (recrop_centred s c bh bw hc).1
+  · exact (recrop_registered s c bh bw hc p).1
+  · exact (recrop_registered s c bh bw hc p).2
+
 end SleapVerif.C04
